@@ -10,6 +10,7 @@ import (
 	"github.com/cometbft/cometbft/abci/types"
 
 	"github.com/oasisprotocol/oasis-core/go/common/cbor"
+	governance "github.com/oasisprotocol/oasis-core/go/governance/api"
 	"github.com/oasisprotocol/oasis-core/go/consensus/api/transaction"
 	registry "github.com/oasisprotocol/oasis-core/go/registry/api"
 	"pgregory.net/rapid"
@@ -90,6 +91,7 @@ func TestC10NoHalt(t *testing.T) {
 		fp = append(fp, fmt.Sprintf("%+v", *spec))
 		nontrivial := false
 		lastEpoch := uint64(0)
+		closedSeen := map[uint64]bool{}
 		lastRound, sawDiscrepancy := uint64(0), false
 		for bi := 0; bi < nblocks; bi++ {
 			view, err := chain.NewView(sim.Reps[0])
@@ -110,6 +112,33 @@ func TestC10NoHalt(t *testing.T) {
 			if strings.Contains(traffic, "gov") {
 				props, _ := view.Gov.ActiveProposals(view.Ctx())
 				rec.Label(fmt.Sprintf("gov-traffic:open-proposals=%d", min(len(props), 3)))
+				// what the proposals that CLOSED since the last block were about and how they ended
+				if all, err := view.Gov.Proposals(view.Ctx()); err == nil {
+					for _, p := range all {
+						if p.State == governance.StateActive || closedSeen[p.ID] {
+							continue
+						}
+						closedSeen[p.ID] = true
+						what := "other"
+						switch {
+						case p.Content.ChangeParameters != nil:
+							what = "change-parameters:" + p.Content.ChangeParameters.Module
+							var fields map[string]any
+							if cbor.Unmarshal(p.Content.ChangeParameters.Changes, &fields) == nil {
+								for _, f := range []string{"fee_split_weight_vote", "debonding_interval", "max_validators", "max_node_expiration", "max_in_runtime_messages", "disable_transfers", "voting_period"} {
+									if _, ok := fields[f]; ok {
+										what += "+" + f
+									}
+								}
+							}
+						case p.Content.Upgrade != nil:
+							what = "upgrade"
+						case p.Content.CancelUpgrade != nil:
+							what = "cancel-upgrade"
+						}
+						rec.Label(fmt.Sprintf("proposal-closed:%s:%s", p.State, what))
+					}
+				}
 			}
 			bg := sim.GenBlock(t, view, ev.Pick(8, 14))
 			regOf := map[*chain.TxDesc]*chain.RegTx{}
